@@ -154,7 +154,10 @@ type c20Secret struct {
 }
 
 type c20Input struct {
-	Kind     string      `json:"kind"`               // run | join | domain
+	Kind     string      `json:"kind"`               // run | join | joinrow | domain
+	N        int         `json:"n,omitempty"`        // joinrow: the other argument runs over all strings over c20Alpha of length <= n
+	Swap     bool        `json:"swap,omitempty"`     // joinrow: A is the name, the prefixes are enumerated
+	Head     string      `json:"head,omitempty"`     // joinrow: fixed head of the enumerated argument (cuts long rows into pieces)
 	Mode     string      `json:"mode,omitempty"`     // new | apply | decl (ParseFields; NewStore{Secrets: f.Secrets()}; f.Apply)
 	Scribble string      `json:"scribble,omitempty"` // decl: what the harness does to the slice Secrets() returned, after NewStore and before Apply: sort | reverse | overwrite | clear | rotate | "" (nothing)
 	Copy     bool        `json:"copy,omitempty"`     // decl: NewStore is given a copy of the slice (only the scribbling touches the original)
@@ -397,6 +400,8 @@ func c20Exec(in c20Input) (rec Record) {
 		return Record{Kind: "join", Input: in, Obs: res, Key: "join:" + in.A + "\x00" + in.B,
 			Nontrivial: in.A != "" && in.B != "", Tags: []string{"join"},
 			Coq: fmt.Sprintf("CJoin %s %s %s", coqBytes([]byte(in.A)), coqBytes([]byte(in.B)), coqBytes([]byte(res)))}
+	case "joinrow":
+		return c20JoinRow(in)
 	case "domain":
 		return c20Domain(in)
 	case "run":
@@ -838,6 +843,141 @@ func c20Domain(in c20Input) Record {
 		Coq: "CDomain 0"}
 }
 
+// ---- path.Join as a pure function: exhaustive rows over a small alphabet
+
+var c20Alpha = []byte{'a', 'b', '/', '.', '\n'}
+
+// all strings over alpha of length k, in the order of Run_C20.level: for a in alpha, for w in level(k-1): a followed by w
+func c20Level(alpha []byte, k int) []string {
+	if k == 0 {
+		return []string{""}
+	}
+	prev := c20Level(alpha, k-1)
+	out := make([]string, 0, len(alpha)*len(prev))
+	for _, a := range alpha {
+		for _, w := range prev {
+			out = append(out, string(a)+w)
+		}
+	}
+	return out
+}
+
+func c20Upto(alpha []byte, n int) []string {
+	var out []string
+	for k := 0; k <= n; k++ {
+		out = append(out, c20Level(alpha, k)...)
+	}
+	return out
+}
+
+func c20Code(alpha []byte, s string) uint64 {
+	base := uint64(len(alpha) + 1)
+	var acc uint64
+	for i := 0; i < len(s); i++ {
+		d := uint64(0)
+		for j, a := range alpha {
+			if a == s[i] {
+				d = uint64(j + 1)
+				break
+			}
+		}
+		acc = acc*base + d
+	}
+	return acc
+}
+
+func c20JoinRow(in c20Input) Record {
+	others := c20Upto(c20Alpha, in.N)
+	codes := make([]string, len(others))
+	for i, w := range others {
+		o := in.Head + w
+		var res string
+		if in.Swap {
+			res = path.Join(o, in.A)
+		} else {
+			res = path.Join(in.A, o)
+		}
+		codes[i] = strconv.FormatUint(c20Code(c20Alpha, res), 10)
+	}
+	al := make([]string, len(c20Alpha))
+	for i, a := range c20Alpha {
+		al[i] = strconv.Itoa(int(a))
+	}
+	return Record{Kind: "joinrow", Input: in, Obs: map[string]any{"pairs": len(others)},
+		Key: fmt.Sprintf("joinrow:%v:%q:%q:%d", in.Swap, in.A, in.Head, in.N), Nontrivial: in.A != "", Tags: []string{"joinrow"},
+		Coq: fmt.Sprintf("CJoinRow %s %s %s %s %d%%nat %s", coqList(al), coqBool(in.Swap), coqBytes([]byte(in.A)), coqBytes([]byte(in.Head)), in.N, coqList(codes))}
+}
+
+// the rows that together cover EVERY pair (prefix, name) over c20Alpha with len(prefix)+len(name) <= total:
+// prefixes of length <= 3 against all names that fit, and names of length <= total-4 against all prefixes that fit
+func c20JoinRows(total int) []c20Input {
+	var rows []c20Input
+	// one fixed argument against every other argument of length <= n; rows longer than 5^6 pairs are cut
+	// by the first byte of the enumerated argument (a 100 000-element list literal overflows coqc's stack)
+	add := func(a string, n int, swap bool) {
+		if n <= 6 {
+			rows = append(rows, c20Input{Kind: "joinrow", A: a, N: n, Swap: swap})
+			return
+		}
+		rows = append(rows, c20Input{Kind: "joinrow", A: a, N: 0, Swap: swap})
+		for _, c := range c20Alpha {
+			rows = append(rows, c20Input{Kind: "joinrow", A: a, Head: string(c), N: n - 1, Swap: swap})
+		}
+	}
+	for _, a := range c20Upto(c20Alpha, 3) {
+		add(a, total-len(a), false)
+	}
+	if total > 4 {
+		for _, b := range c20Upto(c20Alpha, total-4) {
+			add(b, total-len(b), true)
+		}
+	}
+	return rows
+}
+
+// a path that path.Clean changes: trailing / doubled slashes, "." and ".." elements, rooted
+func c20DirtyPath(r *rand.Rand) string {
+	seg := func() string { return c20SegPool[r.IntN(len(c20SegPool))] }
+	switch r.IntN(18) {
+	case 0:
+		return seg() + "/"
+	case 1:
+		return "./" + seg()
+	case 2:
+		return seg() + "//" + seg()
+	case 3:
+		return seg() + "/../" + seg()
+	case 4:
+		return "/" + seg()
+	case 5:
+		return "."
+	case 6:
+		return ".."
+	case 7:
+		return seg() + "/."
+	case 8:
+		return "//" + seg() + "/"
+	case 9:
+		return seg() + "/./" + seg()
+	case 10:
+		return "../" + seg()
+	case 11:
+		return seg() + "/.."
+	case 12:
+		return "/"
+	case 13:
+		return "./"
+	case 14:
+		return seg() + "/" + seg() + "/../../" + seg() + "//"
+	case 15:
+		return "/../" + seg()
+	case 16:
+		return seg() + "/" + seg() + "/"
+	default:
+		return "../../" + seg() + "/./"
+	}
+}
+
 // ---- generation
 
 var c20SegPool = []string{"a", "b", "db", "key", "prod", "dev", "x1", "api-key", "tok_en", ".hid", "a.b", "...", "c..", " sp", "sp ", "Q"}
@@ -1028,10 +1168,18 @@ func c20Generate(r *rand.Rand) c20Input {
 	if r.IntN(10) >= 3 {
 		in.Prefix = c20CleanName(r, 3)
 	}
+	// a quarter of the cases leave the clean domain: prefixes and tag names that path.Clean changes
+	dirty := r.IntN(4) == 0
+	if dirty && r.IntN(5) != 0 {
+		in.Prefix = c20DirtyPath(r)
+	}
 	valid := r.IntN(100) < 70
 	names := make([]string, 2+r.IntN(5))
 	for i := range names {
 		names[i] = c20CleanName(r, 2)
+		if dirty && r.IntN(5) < 2 {
+			names[i] = c20DirtyPath(r)
+		}
 	}
 	nf := r.IntN(9)
 	if valid && nf == 0 {
@@ -1073,8 +1221,8 @@ func c20Generate(r *rand.Rand) c20Input {
 				walk(f.Inner)
 			} else if f.Tag != nil {
 				full := c20TagName(*f.Tag)
-				if in.Prefix != "" {
-					full = in.Prefix + "/" + full
+				if full != "" {
+					full = path.Join(in.Prefix, full) // generator-side guess of the name that will be asked for
 				}
 				if _, ok := wants[full]; !ok && full != "" {
 					wants[full] = want{f.Tid, strings.Contains(*f.Tag, ",json")}
@@ -1098,7 +1246,7 @@ func c20Generate(r *rand.Rand) c20Input {
 	// decoys: the bare names and a leading-slash form, so that a wrongly joined name finds something else
 	for _, nm := range names {
 		if r.IntN(4) == 0 {
-			for _, d := range []string{nm, "/" + nm, in.Prefix + nm} {
+			for _, d := range []string{nm, "/" + nm, in.Prefix + nm, in.Prefix + "/" + nm, strings.TrimSuffix(in.Prefix, "/") + "/" + nm} {
 				if _, ok := wants[d]; !ok && d != "" {
 					wants[d] = want{}
 					v := c20Value(r, 1, false)
@@ -1126,9 +1274,15 @@ func c20GenJoin(r *rand.Rand) c20Input {
 		if r.IntN(2) == 0 {
 			return c20CleanName(r, 3)
 		}
-		parts := []string{"a", "b", ".", "..", "", "c.d", "...", "/", "x"}
+		parts := []string{"a", "b", ".", "..", "", "c.d", "...", "/", "x", "\n", " ", "..a", "a..", ".b", "\x00", "\xff/"}
 		n := 1 + r.IntN(5)
+		if r.IntN(3) == 0 {
+			n += r.IntN(12) // longer ones
+		}
 		var sb strings.Builder
+		if r.IntN(5) == 0 {
+			sb.WriteByte('/')
+		}
 		for i := 0; i < n; i++ {
 			sb.WriteString(parts[r.IntN(len(parts))])
 			if r.IntN(3) != 0 {
@@ -1271,6 +1425,24 @@ func c20Main(o Opts) {
 	rj := NewRand(o.Seed, 21)
 	for i := 0; i < njoin; i++ {
 		out.Emit(c20Exec(c20GenJoin(rj)))
+	}
+	// path.Join(prefix, name) exhaustively over {a, b, /, ., \n}: every pair with len(prefix)+len(name) <= total
+	total := 6
+	if o.Tier == "thorough" {
+		total = 7
+	}
+	for i, in := range c20JoinRows(total) {
+		rec := c20Exec(in)
+		rec.ID = out.n
+		out.Emit(rec)
+		if i == 7 || i == 40 {
+			// self-test: one result of the row altered
+			st := rec
+			st.SelfTest, st.SelfOf = true, rec.ID
+			k := strings.LastIndex(rec.Coq, ";")
+			st.Coq = rec.Coq[:k+1] + "77777]"
+			out.Emit(st)
+		}
 	}
 	for _, rec := range selfSrc {
 		for _, v := range c20SelfVariants(rec) {
